@@ -10,7 +10,7 @@ from ..cxx_ir import CALL_KINDS, CTOR_KINDS
 from ..cfg import cfg_of
 from ..effects import PY, PYDEL, ONCE, external_effects
 from .common import (short, inst, live_funcs, calls_in, callee_func, member_path, enclosing_map,
-                     ancestors, strip_casts)
+                     ancestors, strip_casts, relation, if_outcome)
 
 GUARD_TYPES = ('scoped_read_lock_guard', 'scoped_write_lock_guard', 'scoped_lock_guard',
                'scoped_recursive_lock_guard')
@@ -436,9 +436,10 @@ def t3(ctx):
             capped = False
             for a in ancestors(e, parent):
                 if a.kind == 'IfStmt':
-                    txt = a.kids[0].text(6)
-                    if cache + '.size' in txt and 'MAX_TYPE_CACHE_SIZE' in txt and \
-                            a.kids[0].kind == 'BinaryOperator' and a.kids[0].op in ('<', '<='):
+                    base, outcome = if_outcome(a, e)
+                    rel = relation(base)
+                    if rel is not None and outcome is True and cache + '.size' in rel[0].text(6) and \
+                            'MAX_TYPE_CACHE_SIZE' in rel[1].text(6):
                         capped = True
             ctx.check(site + '/capped', capped,
                       '%s: insertion guarded by %s.size() < MAX_TYPE_CACHE_SIZE' % (inst(f), cache),
